@@ -27,6 +27,19 @@
      the first JSON value of the oversized message lies inside the limit ("bigtail") it IS handled
      and answered, the close happens while the rest is drained.
 
+   * MESSAGE FRAMING.  A websocket message is one or more frames; HandleReader stops reading as soon as the first JSON
+     value is complete (json.Decoder on a 128-byte bufio.Reader), so when HandleReadWriter returns the message may
+     have an UNREAD REMAINDER: the empty FIN frame of a message sent through a streaming writer (JSON in a non-final
+     frame + empty final continuation frame - wsjson.Write, many client libraries), or payload bytes of the current
+     frame (insignificant whitespace / padding behind the value that fell behind a read boundary: a 128-byte request
+     followed by "\n", a request followed by more whitespace than the decoder buffers).  The loop therefore DRAINS
+     the message (io.Copy(io.Discard, r)) before it asks for the next one; coder/websocket refuses the next
+     conn.Reader otherwise ("previous message not read to completion", close 1011) or parses the unread payload
+     as the next frame header (protocol error, close 1002): the first message is answered, every LATER message on
+     the connection is not.  fm is the framing of a client message ("whole" | "frag" | "pad"), rem the unread
+     remainder after HandleReadWriter ("none" | "fin" | "bytes"); DrainRemainder (TRUE = the code as it is) is the
+     mechanism, ReadDesync what happens without it.
+
    Response CONTENT is not re-modelled: per entry it is what JsonRpc.tla (C11) says, through an
    INSTANCE of that module (transport independence = the same operators decide the answer).
    Known deviation inherited from C11: FixNonRequest = FALSE (a valid-JSON non-request sent as a
@@ -54,8 +67,9 @@ CONSTANTS
   WriteMutex,      \* TRUE: writers exclude each other for a whole frame (coder/websocket)
   WaitActivation,  \* TRUE: connection.Write waits for the initial response (code as it is)
   FixNonRequest,   \* FALSE: code as it is (C11 known finding)
-  FixCloseReason   \* FALSE: code as it is: ServeHTTP cuts the close reason at 125 bytes, a close frame
+  FixCloseReason,  \* FALSE: code as it is: ServeHTTP cuts the close reason at 125 bytes, a close frame
                    \* carries at most 123: with a longer error text NO close frame is sent (finding of G04)
+  DrainRemainder   \* TRUE: code as it is: the loop reads the rest of a message after answering it (mechanism switch)
 
 Subs    == 1..MaxSubs
 Idx     == 1..MaxEntries
@@ -72,19 +86,28 @@ JR == INSTANCE JsonRpc WITH
         FixNotif <- TRUE, FixNonRequest <- FixNonRequest, FixLongWs <- TRUE,
         \* the replayer's methods take (ctx, a int, b string): no pointer parameter, no validator
         FixNullRequired <- TRUE, HasValidator <- FALSE, NilPointerSkipsValidation <- TRUE,
+        \* the connection's context stays live while a message is handled (WithRequestTimeout is not modelled), no gate
+        CtxChoices <- {"live"}, GateChoices <- {FALSE}, SilentOnCtx <- {},
+        cx <- "live", cx0 <- "live", gated <- FALSE, seen <- <<>>,
         top <- "none", far <- FALSE, entries <- <<>>, phase <- "done", nxt <- 1, running <- {},
         called <- <<>>, stage <- <<>>, out <- <<>>, shape <- "nothing", log <- <<>>
 
 (* A frame: k = "single" | "batch" | "garbage" | "big" | "bigtail"; es = its entries (JsonRpc
    entries).  big: the JSON value crosses ReadLimit; bigtail: a request inside the limit followed
    by padding beyond it. *)
-Fr(k, es) == [k |-> k, es |-> es]
+Fr(k, es) == [k |-> k, es |-> es, fm |-> "whole"]
+(* ... in another framing: "frag" = the JSON text in non-final frame(s) + an empty FIN frame; "pad" = one frame, the
+   JSON value followed by whitespace that ends behind a read boundary (all within ReadLimit) *)
+FrF(k, es, fm) == [k |-> k, es |-> es, fm |-> fm]
+Framings == {"whole", "frag", "pad"}
+RemOf(fr) == IF fr.k = "bigtail" THEN "bytes" ELSE IF fr.fm = "frag" THEN "fin" ELSE IF fr.fm = "pad" THEN "bytes" ELSE "none"
 
 CodeSubExists == 45     \* sub: the key is already taken on this server
 CodeNoSub     == 46     \* unsub: no active subscription with that key on this connection
 CodeCancelled == 77     \* a gated handler whose context was cancelled
 ClosedTooBig  == 1009
 ClosedIntErr  == 1011
+ClosedProto   == 1002
 
 (* the handler is invoked for this entry (operational reading of C11) *)
 Invokes(e) == ~JR!DecodeErr(e) /\ JR!HandleRequest(1, e).inv # JR!NoInv
@@ -108,6 +131,7 @@ VARIABLES
   pend,     \* [Idx -> response computed at the call, appended when the handler returns]
   acc,      \* responses gathered for frame cur
   tail,     \* a bigtail frame was answered; draining it will hit the limit
+  rem,      \* the unread remainder of the message just answered (only without the drain): "none" | "fin" | "bytes"
   wire,     \* server -> client: <<[w, part, c]>>; part 0 whole, 1 head, 2 tail
   wip,      \* [Writers -> frame being written or NoFrame]
   sub,      \* [Subs -> "none" | "active" | "cancelled" | "told" | "done"]
@@ -126,9 +150,9 @@ VARIABLES
   ctxc,     \* Conn.Context() is cancelled
   step      \* output only: the action just taken and what it put on the wire
 
-vars == <<sent, nread, cur, est, pend, acc, tail, wire, wip, sub, owner, unsubby, act, ierr, gor,
+vars == <<sent, nread, cur, est, pend, acc, tail, rem, wire, wip, sub, owner, unsubby, act, ierr, gor,
           natt, ninv, failedf, client, cseen, srv, shut, ctxc, step>>
-view == <<sent, nread, cur, est, pend, acc, tail, wire, wip, sub, owner, unsubby, act, ierr, gor,
+view == <<sent, nread, cur, est, pend, acc, tail, rem, wire, wip, sub, owner, unsubby, act, ierr, gor,
           natt, ninv, failedf, client, cseen, srv, shut, ctxc>>
 
 FE == (1..MaxFrames) \X Idx
@@ -137,7 +161,7 @@ St(a, x, y, r) == [a |-> a, x |-> x, y |-> y, res |-> r]
 
 Init ==
   /\ sent = <<>> /\ nread = 0 /\ cur = 0
-  /\ est = [i \in Idx |-> "idle"] /\ pend = [i \in Idx |-> JR!NoResp] /\ acc = <<>> /\ tail = FALSE
+  /\ est = [i \in Idx |-> "idle"] /\ pend = [i \in Idx |-> JR!NoResp] /\ acc = <<>> /\ tail = FALSE /\ rem = "none"
   /\ wire = <<>> /\ wip = [w \in Writers |-> NoFrame]
   /\ sub = [k \in Subs |-> "none"] /\ owner = [k \in Subs |-> <<0, 0>>] /\ unsubby = [k \in Subs |-> <<0, 0>>]
   /\ act = [k \in Subs |-> FALSE] /\ ierr = [k \in Subs |-> FALSE]
@@ -160,7 +184,7 @@ ClientSend(fr) ==
   /\ \A i \in 1..Len(sent) : sent[i].k \notin {"big", "bigtail"}   \* nothing is read after those
   /\ sent' = Append(sent, fr)
   /\ step' = St("ClientSend", Len(sent) + 1, 0, "-")
-  /\ UNCHANGED <<nread, cur, est, pend, acc, tail, wire, wip, sub, owner, unsubby, act, ierr, gor, natt,
+  /\ UNCHANGED <<nread, cur, est, pend, acc, tail, rem, wire, wip, sub, owner, unsubby, act, ierr, gor, natt,
                  ninv, failedf, client, cseen, srv, shut, ctxc>>
 
 (* conn.Close(StatusNormalClosure): a close frame is sent, further data frames are discarded *)
@@ -168,7 +192,7 @@ ClientClose ==
   /\ AllowClose /\ client = "open" /\ srv = "serving"
   /\ client' = "closing" /\ cseen' = Len(wire)
   /\ step' = St("ClientClose", 0, 0, "-")
-  /\ UNCHANGED <<sent, nread, cur, est, pend, acc, tail, wire, wip, sub, owner, unsubby, act, ierr, gor, natt,
+  /\ UNCHANGED <<sent, nread, cur, est, pend, acc, tail, rem, wire, wip, sub, owner, unsubby, act, ierr, gor, natt,
                  ninv, failedf, srv, shut, ctxc>>
 
 ----------------------------------------------------------------------------
@@ -198,7 +222,7 @@ FirstStage(fr) ==
 
 (* conn.Reader returned the next message.  After the shutdown signal the read may still win. *)
 ServerRead ==
-  /\ srv = "serving" /\ cur = 0 /\ ~tail /\ nread < Len(sent)
+  /\ srv = "serving" /\ cur = 0 /\ ~tail /\ rem = "none" /\ nread < Len(sent)
   /\ LET fr == sent[nread + 1] IN
      IF fr.k = "big" THEN
        \* limitReader: writeError(StatusMessageTooBig); the -32700 answer cannot be written any more
@@ -213,7 +237,7 @@ ServerRead ==
        /\ est' = FirstStage(fr) /\ acc' = FirstResp(fr)
        /\ step' = St("ServerRead", nread + 1, 0, "-")
        /\ UNCHANGED <<wire, failedf, srv, ctxc>>
-  /\ UNCHANGED <<sent, pend, tail, wip, sub, owner, unsubby, act, ierr, gor, natt, ninv, client, cseen, shut>>
+  /\ UNCHANGED <<sent, pend, tail, rem, wip, sub, owner, unsubby, act, ierr, gor, natt, ninv, client, cseen, shut>>
 
 Called == {i \in Idx : est[i] = "called"}
 Queued == {i \in Idx : est[i] = "queued"}
@@ -250,7 +274,7 @@ Start(i) ==
         ELSE /\ pend' = [pend EXCEPT ![i] = h.resp]
              /\ UNCHANGED <<sub, owner, unsubby>>
   /\ step' = St("Start", cur, i, "-")
-  /\ UNCHANGED <<sent, nread, cur, acc, tail, wire, wip, act, ierr, gor, natt, failedf, client, cseen, srv, shut, ctxc>>
+  /\ UNCHANGED <<sent, nread, cur, acc, tail, rem, wire, wip, act, ierr, gor, natt, failedf, client, cseen, srv, shut, ctxc>>
 
 (* unsub answers only after the goroutine it cancelled has ended *)
 MayReturn(i) ==
@@ -263,7 +287,7 @@ Finish(i) ==
   /\ est' = [est EXCEPT ![i] = "finished"]
   /\ acc' = IF pend[i] = JR!NoResp THEN acc ELSE Append(acc, pend[i])
   /\ step' = St("Finish", cur, i, "-")
-  /\ UNCHANGED <<sent, nread, cur, pend, tail, wire, wip, sub, owner, unsubby, act, ierr, gor, natt, ninv,
+  /\ UNCHANGED <<sent, nread, cur, pend, tail, rem, wire, wip, sub, owner, unsubby, act, ierr, gor, natt, ninv,
                  failedf, client, cseen, srv, shut, ctxc>>
 
 (* ... or it is told through its context that the connection is going away and gives up *)
@@ -272,7 +296,7 @@ FinishCancelled(i) ==
   /\ est' = [est EXCEPT ![i] = "finished"]
   /\ acc' = IF pend[i] = JR!NoResp THEN acc ELSE Append(acc, JR!Resp(i, "error", CodeCancelled, "echo"))
   /\ step' = St("FinishCancelled", cur, i, "-")
-  /\ UNCHANGED <<sent, nread, cur, pend, tail, wire, wip, sub, owner, unsubby, act, ierr, gor, natt, ninv,
+  /\ UNCHANGED <<sent, nread, cur, pend, tail, rem, wire, wip, sub, owner, unsubby, act, ierr, gor, natt, ninv,
                  failedf, client, cseen, srv, shut, ctxc>>
 
 AllFinished == \A i \in Idx : est[i] \in {"idle", "finished"}
@@ -285,7 +309,8 @@ OwnedByCur(k) == owner[k] # <<0, 0>> /\ owner[k][1] = cur
 (* HandleReadWriter returns nil: `activated` is closed, the loop drains the message *)
 Complete ==
   /\ act' = [k \in Subs |-> act[k] \/ OwnedByCur(k)]
-  /\ tail' = (sent[cur].k = "bigtail")
+  /\ tail' = (sent[cur].k = "bigtail" /\ DrainRemainder)
+  /\ rem' = IF DrainRemainder THEN "none" ELSE RemOf(sent[cur])    \* io.Copy(io.Discard, wsc.r)
   /\ cur' = 0 /\ est' = [i \in Idx |-> "idle"] /\ pend' = [i \in Idx |-> JR!NoResp] /\ acc' = <<>>
   /\ UNCHANGED <<sent, nread, sub, owner, unsubby, ierr, gor, natt, ninv, failedf, client, cseen, srv, shut, ctxc>>
 
@@ -299,7 +324,7 @@ RespBegin ==
   /\ IF SplitWrites
        THEN /\ wire' = Put(0, 1, CurResp) /\ wip' = [wip EXCEPT ![0] = CurResp]
             /\ step' = St("RespBegin", cur, 0, "-")
-            /\ UNCHANGED <<sent, nread, cur, est, pend, acc, tail, sub, owner, unsubby, act, ierr, gor, natt, ninv,
+            /\ UNCHANGED <<sent, nread, cur, est, pend, acc, tail, rem, sub, owner, unsubby, act, ierr, gor, natt, ninv,
                            failedf, client, cseen, srv, shut, ctxc>>
        ELSE /\ wire' = Put(0, 0, CurResp) /\ UNCHANGED wip
             /\ step' = St("Respond", cur, 0, "ok")
@@ -322,7 +347,7 @@ RespFail(withClose) ==
   /\ wire' = IF withClose /\ (WriteMutex => MutexFree) THEN Put(0, 0, CloseFrame(ClosedIntErr)) ELSE wire
   /\ cur' = 0 /\ est' = [i \in Idx |-> "idle"] /\ pend' = [i \in Idx |-> JR!NoResp] /\ acc' = <<>>
   /\ step' = St("RespFail", cur, 0, "error")
-  /\ UNCHANGED <<sent, nread, tail, wip, sub, owner, unsubby, gor, natt, ninv, client, cseen, shut, ctxc>>
+  /\ UNCHANGED <<sent, nread, tail, rem, wip, sub, owner, unsubby, gor, natt, ninv, client, cseen, shut, ctxc>>
 
 (* json.Marshal of the response fails: HandleReadWriter returns the error (initialErr, `activated`
    closes), the loop breaks and ServeHTTP closes the websocket with StatusInternalError and the error
@@ -335,34 +360,46 @@ RespUnser ==
   /\ wire' = IF FixCloseReason \/ ~LongReason(sent[cur]) THEN Put(0, 0, CloseFrame(ClosedIntErr)) ELSE wire
   /\ cur' = 0 /\ est' = [i \in Idx |-> "idle"] /\ pend' = [i \in Idx |-> JR!NoResp] /\ acc' = <<>>
   /\ step' = St("RespUnser", cur, 0, "error")
-  /\ UNCHANGED <<sent, nread, tail, wip, sub, owner, unsubby, gor, natt, ninv, client, cseen, shut>>
+  /\ UNCHANGED <<sent, nread, tail, rem, wip, sub, owner, unsubby, gor, natt, ninv, client, cseen, shut>>
 
 (* io.Copy(io.Discard, ...) of a bigtail message hits the limit *)
 TailClose ==
   /\ srv = "serving" /\ cur = 0 /\ tail /\ (WriteMutex => MutexFree)
   /\ wire' = Put(0, 0, CloseFrame(ClosedTooBig))
-  /\ srv' = "exited" /\ ctxc' = TRUE /\ tail' = FALSE
+  /\ srv' = "exited" /\ ctxc' = TRUE /\ tail' = FALSE /\ rem' = rem
   /\ step' = St("TailClose", nread, 0, "-")
   /\ UNCHANGED <<sent, nread, cur, est, pend, acc, wip, sub, owner, unsubby, act, ierr, gor, natt, ninv,
+                 failedf, client, cseen, shut>>
+
+(* WITHOUT the drain: the loop asks for the next message while the previous one has an unread remainder.  Only its FIN
+   frame is missing: conn.Reader refuses ("previous message not read to completion"), ServeHTTP closes with 1011.
+   Payload bytes are unread: the library parses them as the next frame header - protocol error, close 1002.  Either
+   way the connection is gone although nothing the client sent was wrong; what it sends later is never answered. *)
+ReadDesync ==
+  /\ srv = "serving" /\ cur = 0 /\ rem # "none" /\ (WriteMutex => MutexFree)
+  /\ wire' = Put(0, 0, CloseFrame(IF rem = "fin" THEN ClosedIntErr ELSE ClosedProto))
+  /\ srv' = "exited" /\ ctxc' = TRUE /\ rem' = "none"
+  /\ step' = St("ReadDesync", nread, 0, "-")
+  /\ UNCHANGED <<sent, nread, cur, est, pend, acc, tail, wip, sub, owner, unsubby, act, ierr, gor, natt, ninv,
                  failedf, client, cseen, shut>>
 
 (* conn.Reader returns the client's close frame (everything sent before it has been handled) or the
    cancelled context *)
 ServerExit(withClose) ==
-  /\ srv = "serving" /\ cur = 0 /\ ~tail
+  /\ srv = "serving" /\ cur = 0 /\ ~tail /\ rem = "none"
   /\ \/ client = "closing" /\ nread = Len(sent) /\ ~withClose
      \/ shut
   /\ srv' = "exited" /\ ctxc' = TRUE
   /\ wire' = IF withClose /\ (WriteMutex => MutexFree) THEN Put(0, 0, CloseFrame(ClosedIntErr)) ELSE wire
   /\ step' = St("ServerExit", 0, 0, "-")
-  /\ UNCHANGED <<sent, nread, cur, est, pend, acc, tail, wip, sub, owner, unsubby, act, ierr, gor, natt, ninv,
+  /\ UNCHANGED <<sent, nread, cur, est, pend, acc, tail, rem, wip, sub, owner, unsubby, act, ierr, gor, natt, ninv,
                  failedf, client, cseen, shut>>
 
 ServerShutdown ==
   /\ AllowShutdown /\ ~shut /\ srv = "serving"
   /\ shut' = TRUE /\ ctxc' = TRUE
   /\ step' = St("ServerShutdown", 0, 0, "-")
-  /\ UNCHANGED <<sent, nread, cur, est, pend, acc, tail, wire, wip, sub, owner, unsubby, act, ierr, gor, natt,
+  /\ UNCHANGED <<sent, nread, cur, est, pend, acc, tail, rem, wire, wip, sub, owner, unsubby, act, ierr, gor, natt,
                  ninv, failedf, client, cseen, srv>>
 
 ----------------------------------------------------------------------------
@@ -371,7 +408,7 @@ NoteStart(k) ==      \* the goroutine calls Conn.Write
   /\ sub[k] = "active" /\ gor[k] = "idle" /\ natt[k] < MaxNotes
   /\ gor' = [gor EXCEPT ![k] = "pending"] /\ natt' = [natt EXCEPT ![k] = @ + 1]
   /\ step' = St("NoteStart", k, natt[k] + 1, "-")
-  /\ UNCHANGED <<sent, nread, cur, est, pend, acc, tail, wire, wip, sub, owner, unsubby, act, ierr, ninv,
+  /\ UNCHANGED <<sent, nread, cur, est, pend, acc, tail, rem, wire, wip, sub, owner, unsubby, act, ierr, ninv,
                  failedf, client, cseen, srv, shut, ctxc>>
 
 Unblocked(k) == WaitActivation => act[k]
@@ -384,7 +421,7 @@ NoteBegin(k) ==
        ELSE /\ wire' = Put(k, 0, NoteFrame(k, natt[k])) /\ UNCHANGED wip
             /\ gor' = [gor EXCEPT ![k] = "idle"]
             /\ step' = St("NoteWrite", k, natt[k], "ok")
-  /\ UNCHANGED <<sent, nread, cur, est, pend, acc, tail, sub, owner, unsubby, act, ierr, natt, ninv,
+  /\ UNCHANGED <<sent, nread, cur, est, pend, acc, tail, rem, sub, owner, unsubby, act, ierr, natt, ninv,
                  failedf, client, cseen, srv, shut, ctxc>>
 
 NoteEnd(k) ==        \* the connection may have died under the writer: the frame stays truncated
@@ -392,7 +429,7 @@ NoteEnd(k) ==        \* the connection may have died under the writer: the frame
   /\ wire' = IF srv = "serving" THEN Put(k, 2, wip[k]) ELSE wire
   /\ wip' = [wip EXCEPT ![k] = NoFrame] /\ gor' = [gor EXCEPT ![k] = "idle"]
   /\ step' = St("NoteEnd", k, natt[k], IF srv = "serving" THEN "ok" ELSE "error")
-  /\ UNCHANGED <<sent, nread, cur, est, pend, acc, tail, sub, owner, unsubby, act, ierr, natt, ninv,
+  /\ UNCHANGED <<sent, nread, cur, est, pend, acc, tail, rem, sub, owner, unsubby, act, ierr, natt, ninv,
                  failedf, client, cseen, srv, shut, ctxc>>
 
 NoteFail(k) ==       \* Write returns an error; nothing reaches any connection
@@ -400,21 +437,21 @@ NoteFail(k) ==       \* Write returns an error; nothing reaches any connection
   /\ ierr[k] \/ ctxc \/ srv = "exited" \/ client = "closing"   \* a closing peer: the loop may be gone any moment
   /\ gor' = [gor EXCEPT ![k] = "idle"]
   /\ step' = St("NoteFail", k, natt[k], "error")
-  /\ UNCHANGED <<sent, nread, cur, est, pend, acc, tail, wire, wip, sub, owner, unsubby, act, ierr, natt, ninv,
+  /\ UNCHANGED <<sent, nread, cur, est, pend, acc, tail, rem, wire, wip, sub, owner, unsubby, act, ierr, natt, ninv,
                  failedf, client, cseen, srv, shut, ctxc>>
 
 Told(k) ==           \* the goroutine sees Conn.Context().Done() and ends
   /\ sub[k] = "active" /\ gor[k] = "idle" /\ ctxc
   /\ sub' = [sub EXCEPT ![k] = "told"]
   /\ step' = St("Told", k, 0, "-")
-  /\ UNCHANGED <<sent, nread, cur, est, pend, acc, tail, wire, wip, owner, unsubby, act, ierr, gor, natt, ninv,
+  /\ UNCHANGED <<sent, nread, cur, est, pend, acc, tail, rem, wire, wip, owner, unsubby, act, ierr, gor, natt, ninv,
                  failedf, client, cseen, srv, shut, ctxc>>
 
 GorExit(k) ==        \* the goroutine sees the cancellation by unsub and ends
   /\ sub[k] = "cancelled" /\ gor[k] = "idle"
   /\ sub' = [sub EXCEPT ![k] = "done"]
   /\ step' = St("GorExit", k, 0, "-")
-  /\ UNCHANGED <<sent, nread, cur, est, pend, acc, tail, wire, wip, owner, unsubby, act, ierr, gor, natt, ninv,
+  /\ UNCHANGED <<sent, nread, cur, est, pend, acc, tail, rem, wire, wip, owner, unsubby, act, ierr, gor, natt, ninv,
                  failedf, client, cseen, srv, shut, ctxc>>
 
 ----------------------------------------------------------------------------
@@ -423,7 +460,7 @@ CanSend == client = "open" /\ srv = "serving" /\ ~shut /\ Len(sent) < MaxFrames
 Next ==
   \/ CanSend /\ \E fr \in FrameAlphabet : ClientSend(fr)
   \/ ClientClose \/ ServerShutdown
-  \/ ServerRead \/ RespNone \/ RespBegin \/ RespEnd \/ RespUnser \/ TailClose
+  \/ ServerRead \/ RespNone \/ RespBegin \/ RespEnd \/ RespUnser \/ TailClose \/ ReadDesync
   \/ \E c \in BOOLEAN : RespFail(c) \/ ServerExit(c)
   \/ \E i \in Idx : Start(i) \/ Finish(i) \/ FinishCancelled(i)
   \/ \E k \in Subs : NoteStart(k) \/ NoteBegin(k) \/ NoteEnd(k) \/ NoteFail(k) \/ Told(k) \/ GorExit(k)
@@ -449,6 +486,8 @@ TypeOK ==
   /\ \A k \in Subs : natt[k] <= MaxNotes /\ (sub[k] = "none" <=> owner[k] = <<0, 0>>)
   /\ srv = "exited" => ctxc
   /\ shut => ctxc
+  /\ rem \in {"none", "fin", "bytes"}
+  /\ \A f \in 1..Len(sent) : sent[f].fm \in Framings
 
 (* what frame f owes, by entry: the answer classes of JsonRpc.tla (as the code is: the one known
    deviation switched in on the single path) *)
@@ -557,6 +596,20 @@ InternalClose(pure) ==
          ELSE \A i \in DOMAIN W : W[i].c.t # "close"
 PInternalClose    == InternalClose(FALSE)
 PureInternalClose == InternalClose(TRUE)
+(* FRAMING.  The server ends a connection only for a documented reason: the client closed, the server shuts down, a
+   message beyond ReadLimit, an answer it could not write / serialise.  In particular the way a message was cut into
+   frames, or what followed its JSON value inside the read limit, is none ... *)
+ExitDocumented ==
+  \/ shut \/ client = "closing" \/ failedf # 0
+  \/ \E f \in 1..nread : sent[f].k \in {"big", "bigtail"}
+PDocumentedExit == srv = "exited" => ExitDocumented
+(* ... so every owed frame of every LATER message is answered: a message that owes a response and has none is
+   unread / in flight on a serving connection, or the connection ended for a documented reason *)
+PLaterAnswered ==
+  \A f \in 1..Len(sent) :
+    (Owes(sent[f]) /\ RespAt(f) = {} /\ srv = "exited") => ExitDocumented
+(* the as-is loop never leaves a remainder behind *)
+PDrained == DrainRemainder => rem = "none"
 PCloseIsLast ==
   \A i \in DOMAIN W : W[i].c.t = "close" => i = Len(W)
 =============================================================================
